@@ -882,8 +882,21 @@ func (c *EvalCtx) call(e ECall) EV {
 		return EV{T: Eq(app(SInt, "i-typ", c.term(x)), fr.R.TM.TypeCode(ty)), Ty: boolT}
 	case "toInt64":
 		x := c.term(c.eval(e.Args[0]))
+		fr.useF64()
 		fr.R.Sc.DeclareFun("int.of.f64", []Sort{SF64}, SInt)
 		return EV{T: app(SInt, "int.of.f64", x), Ty: types.Typ[types.Int64]}
+	case "toFloat64":
+		x := c.term(c.eval(e.Args[0]))
+		fr.useF64()
+		return EV{T: app(SF64, "f64.of.int", x), Ty: types.Typ[types.Float64]}
+	case "f64isNaN", "f64isInf":
+		x := c.term(c.eval(e.Args[0]))
+		fr.useF64()
+		return EV{T: app(SBool, map[string]string{"f64isNaN": "f64.isnan", "f64isInf": "f64.isinf"}[e.Fun], x), Ty: boolT}
+	case "f64trunc", "f64abs":
+		x := c.term(c.eval(e.Args[0]))
+		fr.useF64()
+		return EV{T: app(SF64, map[string]string{"f64trunc": "f64.trunc", "f64abs": "f64.abs"}[e.Fun], x), Ty: types.Typ[types.Float64]}
 	case "strlen":
 		x := c.eval(e.Args[0])
 		return EV{T: app(SInt, "str.len", c.term(x)), Ty: intT}
